@@ -17,7 +17,8 @@ RULE = ('each case = a valid prefix reaching varied stream states (open / half-c
         '5-40 random public calls and received frames; non-trivial = closure reached and at least 3 post-closure actions '
         'judged; distinct = hash of (route, role, post-closure action sequence)')
 MINIMA = {'post_calls_judged': 3000, 'post_recv_judged': 1000, 'route_close_connection': 100, 'route_recv_goaway': 100,
-          'route_conn_error': 100, 'ack_after_close_judged': 200, 'pending_discard_judged': 100}
+          'route_conn_error': 100, 'ack_after_close_judged': 200, 'pending_discard_judged': 100,
+          'goaway_on_closed_connection_with_pending_output': 300}
 
 
 def n_cases(tier):
@@ -71,8 +72,10 @@ def run_case(idx, rng, tier, rep):
             t.call('increment_flow_control_window', 10, _drain=False)
     route = rng.choice(['close_connection', 'recv_goaway', 'conn_error'])
     rep.count('route_' + route)
+    # closed by another route with output still undrained, and only then the peer's GOAWAY arrives
+    late_goaway = pending and route != 'recv_goaway' and rng.random() < 0.5
     if route == 'close_connection':
-        r = t.call('close_connection', rng.choice([0, 1, 2]), rng.choice([None, b'bye']))
+        r = t.call('close_connection', rng.choice([0, 1, 2]), rng.choice([None, b'bye']), _drain=not late_goaway)
         if not r.ok:
             rep.count('closure_failed')
             return
@@ -95,12 +98,21 @@ def run_case(idx, rng, tier, rep):
     else:
         bad_frame = rng.choice([wire.build_data(0, b'x'), wire.build_window_update(0, 0), wire.raw_frame(wire.PING, 0, 0, b'123'),
                                 wire.build_settings([(2, 5)]), wire.build_headers(0, hb(REQ))])
-        r = t.call('receive_data', bad_frame)
+        r = t.call('receive_data', bad_frame, _drain=not late_goaway)
         if r.ok or not isinstance(r.exc, h2.exceptions.ProtocolError):
             rep.count('closure_failed')
             return
-    if pending and route != 'recv_goaway':
-        pass
+    if late_goaway:
+        r = t.call('receive_data', wire.build_goaway(rng.choice([0, 1]), rng.choice([0, 2])), _drain=False)
+        rep.count('goaway_on_closed_connection_with_pending_output')
+        if r.exc is not None and not isinstance(r.exc, h2.exceptions.ProtocolError):
+            rep.violation('C19:receive_data-raises-' + type(r.exc).__name__, 'receive_data raised %r' % r.exc, wit(h, route))
+        out = t.call('data_to_send')
+        if r.exc is None and out.value:
+            fr, _ = wire.parse_frames(out.value)
+            rep.violation('C19:pending-output-survives-goaway:connection-already-closed',
+                          'bytes pending when GOAWAY was received on an already closed connection were returned later: %s' %
+                          [f.name for f in fr][:5], wit(h, route))
     # ---- post-closure phase
     seq = []
     judged = 0
